@@ -236,6 +236,17 @@ fn run_roundtrip(case: &Value) -> Vec<Fail> {
             for or in 0..=2usize {
                 let expect: TooDee<u32> = TooDee::from(parent.view((oc, or), (oc + nc, or + nr)));
                 let mut outs: Vec<(String, Result<Result<TooDee<u32>, serde_json::Error>, ()>)> = Vec::new();
+                let ser_ok = guarded(|| {
+                    let v = parent.view((oc, or), (oc + nc, or + nr));
+                    let _ = serde_json::to_string(&v).unwrap();
+                    let _ = serde_json::to_value(&v).unwrap();
+                    let pm: *const TooDee<u32> = &parent;
+                    let _ = pm;
+                });
+                if ser_ok.is_err() {
+                    fails.push(Fail::new(0, "rt.ser_panic", json!({"path": "view", "dims": [nc, nr], "offset": [oc, or]})));
+                    continue;
+                }
                 {
                     let v = parent.view((oc, or), (oc + nc, or + nr));
                     let s = serde_json::to_string(&v).unwrap();
@@ -243,6 +254,15 @@ fn run_roundtrip(case: &Value) -> Vec<Fail> {
                     outs.push(("view:to_string->from_str".into(), guarded(|| serde_json::from_str(&s))));
                     outs.push(("view:to_string->from_reader".into(), guarded(|| serde_json::from_reader(s.as_bytes()))));
                     outs.push(("view:to_value->from_value".into(), guarded(|| serde_json::from_value(val))));
+                }
+                let ser_ok = guarded(|| {
+                    let vm = parent.view_mut((oc, or), (oc + nc, or + nr));
+                    let _ = serde_json::to_vec(&vm).unwrap();
+                    let _ = serde_json::to_value(&vm).unwrap();
+                });
+                if ser_ok.is_err() {
+                    fails.push(Fail::new(0, "rt.ser_panic", json!({"path": "view_mut", "dims": [nc, nr], "offset": [oc, or]})));
+                    continue;
                 }
                 {
                     let vm = parent.view_mut((oc, or), (oc + nc, or + nr));
